@@ -139,6 +139,24 @@ pub fn run(ctx: &Ctx) -> CheckResult {
     }
     let (_r, mut stats, mut findings, mut herr) = par_map(ctx, &cases, |w, _, c| w.judge(c));
 
+    // ---- (2b) initial-state variation: the decompile output path (and the recompile's) already exist
+    let mut stale_cases: Vec<Case> = vec![];
+    for item in &bins {
+        let mut c = scen::binary_roundtrip_case(item, &[], None, true);
+        c.property = "C01".into();
+        c.oracle = "stale".into();
+        c.name = format!("{} [stale outputs]", c.name);
+        let junk: Vec<u8> = (0..70000u32).map(|k| if k % 61 == 60 { b'\n' } else { b'a' + (k % 26) as u8 }).collect();
+        c.inputs.push(crate::case::Input::bytes(scen::DEC, junk.clone()));
+        c.inputs.push(crate::case::Input::bytes(scen::OUT2, junk));
+        c.meta = json!({"stale": [scen::DEC, scen::OUT2]});
+        stale_cases.push(c);
+    }
+    let (_r, st_s, f_s, h_s) = par_map(ctx, &stale_cases, |w, _, c| w.judge(c));
+    stats.merge(st_s);
+    findings.extend(f_s);
+    herr.extend(h_s);
+
     // ---- (3) fault campaign: decompile's text output (write side) and the compile (read + write side)
     let mut jobs: Vec<FaultJob> = vec![];
     let mut by_tool: BTreeMap<String, Vec<usize>> = BTreeMap::new();
